@@ -10,7 +10,9 @@ CONSTANTS
   Plans = {"whole", "hdr", "ext", "key", "pay", "each", "bytes"}
   Frames <- FramesThorough
   MaxFrames = 2
+  Pres = {"none"}
+  PushPays <- PushNone
 INIT MCInit
 NEXT MCNext
-INVARIANTS TypeOK Inv_Handshake Inv_WellFormedOut Inv_Delivered Inv_PingPong Inv_Close GenInv
+INVARIANTS TypeOK Inv_Handshake Inv_WellFormedOut Inv_Delivered Inv_PingPong Inv_Close Inv_SockRestored Inv_Pushed GenInv
 CHECK_DEADLOCK FALSE
